@@ -66,10 +66,10 @@ NoCall == [op |-> "none"]
 Ev(op, args, t, a, r) ==
   [op |-> op, args |-> args, pre |-> t, arg |-> a, st |-> r.st,
    pe |-> r.st \in {"ArgumentError", "CollisionError", "OutOfBounds", "TextgridStateError", "SafeZipException", "WrongOption"},
-   ret |-> r.ret, post |-> r.post, argpost |-> a, out |-> r.out, arith |-> TRUE]
+   ret |-> r.ret, post |-> r.post, argpost |-> a, out |-> r.out, arith |-> TRUE, exactfp |-> TRUE]
 
 Init == /\ recv \in MySlice
-        /\ arg \in (IF NeedArg THEN Universe ELSE {NoTier})
+        /\ arg \in (IF NeedArg THEN Universe \cup {NoTier} ELSE {NoTier})
         /\ out = NoCall
 
 Call(op, args, r) == /\ out' = Ev(op, args, recv, arg, r)
@@ -127,8 +127,9 @@ Continue == Depth > 1 /\ out.op # "none" /\ ~(out.st = "ok" /\ IsTier(out.ret) /
             /\ recv' = recv /\ arg' = arg /\ out' = NoCall
 
 \* a call is made from a quiescent state (out = NoCall); Adopt/Continue return to one
-DoCall == DoCrop \/ DoErase \/ DoSpace \/ DoSpaceErase \/ DoEdit \/ DoEditRT \/ DoInsert \/ DoDelete \/ DoAppend
-          \/ DoUnion \/ DoDiff \/ DoInter \/ DoMergeL \/ DoDejitter \/ DoMorph \/ DoNew
+\* unary operations are explored with arg = NoTier only, binary ones with every second operand
+DoCall == \/ arg = NoTier /\ (DoCrop \/ DoErase \/ DoSpace \/ DoSpaceErase \/ DoEdit \/ DoEditRT \/ DoInsert \/ DoDelete \/ DoNew)
+          \/ IsTier(arg) /\ (DoAppend \/ DoUnion \/ DoDiff \/ DoInter \/ DoMergeL \/ DoDejitter \/ DoMorph)
 Next == (out.op = "none" /\ DoCall) \/ Adopt \/ Continue
 
 Spec == Init /\ [][Next]_vars
